@@ -144,12 +144,17 @@ func TestC28(t *testing.T) {
 		b      gwBehaviour
 		c1, c2 int // c2 = -1: no second call
 		ka     bool
+		kaDur  time.Duration // keep-alive period when ka (default 3 s)
 	}
 	var cases []cs
 	for _, b := range behaviours {
 		for c1 := range calls {
 			for _, ka := range []bool{false, true} {
-				cases = append(cases, cs{b, c1, -1, ka})
+				cases = append(cases, cs{b: b, c1: c1, c2: -1, ka: ka})
+			}
+			// a legal sub-second keep-alive (the CONNECT then announces duration 0)
+			if b.kind == "normal" || (b.kind == "silent" && b.k <= 2) || (b.kind == "disconnect" && b.k == 2) || (b.kind == "senderr" && b.k <= 2) {
+				cases = append(cases, cs{b: b, c1: c1, c2: -1, ka: true, kaDur: 500 * time.Millisecond})
 			}
 		}
 	}
@@ -157,14 +162,14 @@ func TestC28(t *testing.T) {
 	for _, b := range []gwBehaviour{{kind: "normal"}, {kind: "silent", k: 1}, {kind: "silent", k: 2}, {kind: "disconnect", k: 2}} {
 		for c1 := range calls {
 			for c2 := range calls {
-				cases = append(cases, cs{b, c1, c2, (c1+c2)%2 == 0})
+				cases = append(cases, cs{b: b, c1: c1, c2: c2, ka: (c1+c2)%2 == 0})
 			}
 		}
 	}
 	if !r.Thorough() {
 		var sub []cs
 		for i, c := range cases {
-			if i%2 == int(r.Seed%2) || c.b.kind == "silent" || c.b.kind == "repeat" || c.b.kind == "senderr" {
+			if i%2 == int(r.Seed%2) || c.b.kind == "silent" || c.b.kind == "repeat" || c.b.kind == "senderr" || c.kaDur > 0 {
 				sub = append(sub, c)
 			}
 		}
@@ -176,11 +181,14 @@ func TestC28(t *testing.T) {
 		if cse.c2 >= 0 {
 			second = calls[cse.c2].name
 		}
-		c.Desc = fmt.Sprintf("gateway %s; call %s; concurrent %s; keepalive=%v", cse.b, calls[cse.c1].name, second, cse.ka)
+		c.Desc = fmt.Sprintf("gateway %s; call %s; concurrent %s; keepalive=%v/%v", cse.b, calls[cse.c1].name, second, cse.ka, cse.kaDur)
 		cfg := stdClientCfg("cl")
 		cfg.RetryCount, cfg.RetryDelay, cfg.ConnectTimeout = 1, 2*time.Second, 2*time.Second
 		if cse.ka {
 			cfg.KeepAlive = 3 * time.Second
+			if cse.kaDur > 0 {
+				cfg.KeepAlive = cse.kaDur
+			}
 		}
 		bound := 2*2*time.Second + 5*time.Second + 61*time.Second // (RC+1)*max(CT,RD) + sleep + 60 s PINGRESP wait + 1 s
 		var evs []world.Ev
@@ -261,5 +269,5 @@ func TestC28(t *testing.T) {
 			r.Sample(map[string]interface{}{"case": c.Desc, "trace_head": world.Strings(evs, 16)})
 		}
 	})
-	r.Finish("real client library (RetryCount 1, RetryDelay 2 s, ConnectTimeout 2 s; keep-alive off or 3 s with a ping in flight) against a scripted gateway in virtual time. Gateway behaviours: normal; silent from its k-th received datagram on (k=0..4); DISCONNECT on its k-th datagram (k=0..4); undecodable replies; from datagram 1 or 2 on answering everything with one fixed packet type (17 types incl. unsolicited acks, REGISTER, PUBLISH, CONNECT, ADVERTISE); answering the call's first datagram with one acknowledgement type repeated every second for ten minutes (9 types); normal but the client's own k-th datagram write (or every write from the k-th on, k=0..4) returns a send error. Calls: Connect, then each of Register/Subscribe/Publish QoS 0-2/Unsubscribe/Ping/Sleep(5 s)/Disconnect, alone and (for normal, silent and disconnecting gateways) together with each second call, then Close. Oracle: every call has returned when virtual time has advanced by twice the bound (RetryCount+1) x max(ConnectTimeout, RetryDelay) + sleep duration + 60 s + 1 s; 3 s after Close returned the runtime's goroutine dump shows no goroutine of the bubble inside bisquitt code. Quick tier: every second case (all 'silent' cases).", nil)
+	r.Finish("real client library (RetryCount 1, RetryDelay 2 s, ConnectTimeout 2 s; keep-alive off, 3 s with a ping in flight, or 500 ms) against a scripted gateway in virtual time. Gateway behaviours: normal; silent from its k-th received datagram on (k=0..4); DISCONNECT on its k-th datagram (k=0..4); undecodable replies; from datagram 1 or 2 on answering everything with one fixed packet type (17 types incl. unsolicited acks, REGISTER, PUBLISH, CONNECT, ADVERTISE); answering the call's first datagram with one acknowledgement type repeated every second for ten minutes (9 types); normal but the client's own k-th datagram write (or every write from the k-th on, k=0..4) returns a send error. Calls: Connect, then each of Register/Subscribe/Publish QoS 0-2/Unsubscribe/Ping/Sleep(5 s)/Disconnect, alone and (for normal, silent and disconnecting gateways) together with each second call, then Close. Oracle: every call has returned when virtual time has advanced by twice the bound (RetryCount+1) x max(ConnectTimeout, RetryDelay) + sleep duration + 60 s + 1 s; 3 s after Close returned the runtime's goroutine dump shows no goroutine of the bubble inside bisquitt code. Quick tier: every second case (all 'silent' cases).", nil)
 }
